@@ -515,6 +515,8 @@ def c19(ctx):
             ctx.random_validate("pingpong", 2, n, tag="pp%d" % n)
             ctx.random_validate("oneway", 2, n, tag="ow%d" % n)
         ctx.random_validate("bag", 16, 100)
+        # key exchanges repeated inside a session while one side is silent: what waits for disclosure is carried over once
+        ctx.random_validate("rekey", 32, 4)
         # forged traffic: nothing an unauthenticated message names (key ids, key pairs) may be kept
         ctx.export_tamper_validate("c19-forged", dict(DATA33, MaxSend=2, MaxFlight=2), "fifo-data", per_msg=12, maxsched=40)
     else:
@@ -526,6 +528,7 @@ def c19(ctx):
             ctx.random_validate("oneway", 2, n, tag="ow%d" % n)
         ctx.random_validate("bag", 64, 400)
         ctx.random_validate("life", 64, 400)
+        ctx.random_validate("rekey", 320, 8)
 
 
 LIFE = [dict(PolA=a, PolB=b) for a, b in ((3, 3), (7, 3), (3 | 8, 3 | 16), (7 | 32, 3 | 32), (1, 3), (2 | 4, 3 | 4))]
@@ -541,6 +544,8 @@ def c18(ctx):
                         maxsched=2500 if ctx.quick() else 20000)
     ctx.random_validate("life", 64 if ctx.quick() else 480, 60 if ctx.quick() else 150)
     ctx.random_validate("errlife", 32 if ctx.quick() else 240, 60 if ctx.quick() else 150)
+    # the peer is another implementation (the reference): its farewell may carry records this one does not know
+    ctx.attack_catalogue("ake")
 
 
 def c03(ctx):
@@ -777,6 +782,8 @@ def c11(ctx):
     ctx.export_validate("c11x-ws", dict(SMPCFG, MaxSMPStart=1, MaxSMPAnswer=1, Secrets=[11, 12]), "none", drain=True, maxsched=150 if q else 2000)
     ctx.export_validate("c11x-ws2", dict(SMPCFG, MaxSMPStart=1, MaxSMPAnswer=1, Secrets=[9, 10]), "none", drain=True, maxsched=150 if q else 2000)
     ctx.random_validate("smp", 48 if q else 480, 4 if q else 10)
+    # the same users trying again with the same inputs, handed over in the same buffers
+    ctx.random_validate("smpretry", 24 if q else 96, 1)
     ctx.attack_catalogue("relay")
 
 
